@@ -51,6 +51,13 @@ pub fn run_c14(a: &Args) {
     let mut valid = valid; for d in &decodable { if !valid.contains(d) { valid.push(*d); } }
     for v in &valid { for i in 0..6 { for x in 0..=255u8 { let mut b = *v; b[i] = x; let o = check(b, &mut st, &mut areas); st.evaluations += 1; out.case(&format!("tread {}", hex(&b)), &o); } } }
     for _ in 0..(if a.thorough() { 10_000_000 } else { 200_000 }) { let r = rng.bytes(6); let b = [r[0], r[1], r[2], r[3], r[4], r[5]]; let o = check(b, &mut st, &mut areas); st.evaluations += 1; if o != "E" { out.case(&format!("tread {}", hex(&b)), &o); } }
+    // every short code the library prints (Track::code(), regenerated list) is a wire form: NUL-padded it decodes to the configuration
+    // that prints that code (check() also requires the re-encoding to be identical)
+    for c in crate::gen::tracks::TRACK_CODES.iter() {
+        let mut v = c.as_bytes().to_vec(); v.resize(6, 0); let b = [v[0], v[1], v[2], v[3], v[4], v[5]];
+        st.evaluations += 1;
+        match tread(b) { Some(Some(t)) => if t.code() != *c { st.fail(format!("[C14] the wire form of {c} decodes to {}", t.code()), hex(&b)); }, Some(None) => st.fail(format!("[C14] the wire form of configuration {c} (its short code NUL-padded) does not decode"), hex(&b)), None => st.fail("[C14] Track decoding panics".into(), hex(&b)) }
+    }
     st.add("decodable", ok);
     if ok != 154 { st.fail(format!("[C14] {ok} shaped strings decode, the table has 154 configurations"), "-".into()); }
     st.distinct_nontrivial = ok + 6 * 256 * valid.len() as u64;
@@ -66,6 +73,11 @@ pub fn run_c15(a: &Args) {
         let t: Vec<&str> = r.split_whitespace().collect();
         let ok = match t[0] {
             "rlenc" => { let n: usize = t[2].parse().unwrap(); let v = if t[1] == "1" { RaceLaps::Laps(n) } else { RaceLaps::Hours(n) }; let b: u8 = v.into(); let back = RaceLaps::from(b); let good = b == 0 || match (t[1], back) { ("1", RaceLaps::Laps(m)) => m == n || (n >= 100 && n <= 1000 && m == n - n % 10), ("2", RaceLaps::Hours(m)) => m == n, _ => false }; println!("{:?} -> {b} -> {:?}", v, back); good },
+            "dur" => { let ki: usize = t[1].parse().unwrap(); let idx: usize = t[2].parse().unwrap(); let ms: u64 = t[3].parse().unwrap();
+                let d0 = crate::gen::kinds::default_packets().into_iter().find(|d| format!("{:?}", d).starts_with(crate::gen::layouts::KINDS.get(ki).map(|k| k.name).unwrap_or("?"))).expect("kind");
+                let mut p = d0.clone(); let (off, w, scale, fname) = crate::gen::glue::set_dur(&mut p, idx, Duration::from_millis(ms)).expect("field");
+                let fits = ((ms / scale) as u128) < (1u128 << (8 * w));
+                match encode_p(true, &p) { Enc::Ok(b) => { let wv = (0..w).fold(0u64, |a, i| a | (b[off + i] as u64) << (8 * i)); println!(".{fname} = {ms} ms encodes as {wv} x {scale} ms (fits: {fits})"); fits && wv == ms / scale }, Enc::Err => { println!(".{fname} = {ms} ms is refused (fits: {fits})"); !fits }, Enc::Panic => { println!("panic"); false } } },
             "frame" => { let res = roundtrip("C15", t[1] == "C", &unhex(t[2]), None, &mut st); println!("{res}"); st.failures_total == 0 && res == format!("ok:{}", t[2]) },
             "isi" | "obh" | "lap" | "csc" => {
                 let ms: u64 = t[1].parse().unwrap(); let d = Duration::from_millis(ms);
@@ -210,6 +222,40 @@ pub fn run_c15(a: &Args) {
             }
         } }
         st.notes.push(format!("time fields swept with the {}-value dictionary: {} (kinds x fields x modes)", dict.len(), fields));
+    }
+    // 5. encode side of every top-level time field of every kind (typed setter generated from the source): in-range durations
+    //    with a sub-resolution remainder encode as floor(ms / resolution) in exactly the field's bytes; a duration whose
+    //    quotient does not fit the field is refused - never wrapped, saturated or reduced
+    {
+        let defaults = crate::gen::kinds::default_packets();
+        let mut nf = 0u64;
+        for d0 in defaults.iter() { for idx in 0..crate::gen::glue::dur_fields(d0) {
+            let mut probe = d0.clone();
+            let Some((off, w, scale, fname)) = crate::gen::glue::set_dur(&mut probe, idx, Duration::ZERO) else { continue };
+            nf += 1;
+            let top: u128 = 1u128 << (8 * w);
+            let mut vals: Vec<u128> = vec![0, 1, 9, 10, 11, 999, 1000, 59_999, 60_000, 3_599_999, 3_600_000, 86_400_000];
+            for q in [top - 1, top, top + 1, 2 * top - 1, 2 * top, 2 * top + 77, 10 * top, 10 * top + 5, 256 * top + 3, 65_536 * top + 1234] { for r in [0u128, 1, scale as u128 - 1] { vals.push(q * scale as u128 + r.min(scale as u128 - 1)); vals.push((q * scale as u128).saturating_sub(1 + r)); } }
+            for _ in 0..40 { let q = (rng.next() as u128) % top; vals.push(q * scale as u128 + (rng.below(scale) as u128)); let big = top + (rng.next() as u128 % (1u128 << 40)); vals.push(big * scale as u128 + rng.below(scale) as u128); }
+            for ms in vals { if ms > u64::MAX as u128 { continue; }
+                let mut p = d0.clone(); let _ = crate::gen::glue::set_dur(&mut p, idx, Duration::from_millis(ms as u64));
+                st.evaluations += 1;
+                let fits = ms / (scale as u128) < top;
+                let id = format!("dur {} {idx} {ms}", crate::gen::layouts::KINDS.iter().position(|k| format!("{:?}", d0).starts_with(k.name)).unwrap_or(999));
+                for compressed in [true, false] {
+                    match encode_p(compressed, &p) {
+                        Enc::Ok(b) => {
+                            let wv = (0..w).fold(0u128, |a, i| a | (b[off + i] as u128) << (8 * i));
+                            if !fits { st.fail(format!("[C15] {:?}.{fname} = {ms} ms does not fit {w} bytes x {scale} ms but was encoded as {wv}", std::mem::discriminant(d0)), id.clone()); }
+                            else if wv != ms / scale as u128 { st.fail(format!("[C15] .{fname} = {ms} ms encodes as {wv}, floor(ms / {scale}) is {}", ms / scale as u128), id.clone()); }
+                        },
+                        Enc::Err => if fits { st.fail(format!("[C15] .{fname} = {ms} ms fits {w} bytes x {scale} ms but is refused"), id.clone()); },
+                        Enc::Panic => st.fail(format!("[C15] .{fname} = {ms} ms makes the encoder panic"), id.clone()),
+                    }
+                }
+            }
+        } }
+        st.notes.push(format!("time fields exercised on the encode side through generated typed setters: {nf}"));
     }
     // Small encode side beyond the range: refused
     for (ms, subt) in [(42_949_672_950u128, 1u8), (42_949_672_960, 1), (42_949_672_959, 1), (4_294_967_295, 7), (4_294_967_296, 7), (u64::MAX as u128, 2)] {
